@@ -52,6 +52,10 @@ impl F1Tracker {
         straddle
     }
 
+    pub fn on_subtree_root(&mut self, pool: Pool, index: u64) {
+        self.blocks[pool.idx()].insert((index << 16, (index + 1) << 16));
+    }
+
     pub fn any_tainted(&self) -> bool {
         self.tainted.iter().any(|t| *t)
     }
@@ -80,6 +84,9 @@ pub struct HistCfg {
     /// extra foreign outputs per transaction (dense blocks: batches with more than 1024
     /// commitments per pool take the parallel subtree-building path)
     pub dense_outputs: u32,
+    /// start next to a 2^16 subtree boundary (random prior frontier + prior subtree roots), so that
+    /// shards complete during the history and `put_*_subtree_roots` is exercised with true roots
+    pub shard_start: bool,
 }
 
 impl HistCfg {
@@ -127,6 +134,7 @@ impl HistCfg {
             avoid_f1: rng.gen_bool(0.6),
             tip_before_scan: false,
             dense_outputs: 0,
+            shard_start: false,
         }
     }
 
@@ -152,7 +160,7 @@ impl HistCfg {
             "accounts": self.n_accounts, "nu6_3": self.nu6_3, "retention": self.retention,
             "initial_len": self.initial_len, "max_batch": self.max_batch,
             "out_of_order": self.out_of_order, "max_rewinds": self.max_rewinds, "steps": self.steps,
-            "spend_bias": self.spend_bias, "avoid_f1": self.avoid_f1,
+            "spend_bias": self.spend_bias, "avoid_f1": self.avoid_f1, "shard_start": self.shard_start, "dense_outputs": self.dense_outputs,
         })
     }
 }
@@ -163,6 +171,7 @@ pub enum Op {
     Scan { from: u32, limit: u32, ok: bool, err: Option<String> },
     Tip { h: u32 },
     Rewind { to: u32, actual: Option<u32>, f1: bool },
+    PutRoots { pool: &'static str, index: u64 },
     Finish,
 }
 
@@ -173,6 +182,7 @@ impl Op {
             Op::Scan { from, limit, ok, err } => json!({"op":"scan","from":from,"limit":limit,"ok":ok,"err":err}),
             Op::Tip { h } => json!({"op":"tip","h":h}),
             Op::Rewind { to, actual, f1 } => json!({"op":"rewind","to":to,"actual":actual,"f1":f1}),
+            Op::PutRoots { pool, index } => json!({"op":"put_subtree_roots","pool":pool,"index":index}),
             Op::Finish => json!({"op":"finish"}),
         }
     }
@@ -199,6 +209,10 @@ pub struct Hist {
     /// a scan failed in a way only explained by F1 (after a tainted truncation)
     pub f1_scan_failures: u64,
     pub aborted: Option<String>,
+    /// completed subtrees whose true root has been handed to the wallet: (pool, index)
+    pub roots_given: BTreeSet<(Pool, u64)>,
+    pub subtree_roots_put: u64,
+    pub deep_rewinds_attempted: u64,
 }
 
 pub trait Monitor {
@@ -214,9 +228,36 @@ impl Hist {
         let base_h = 100_000 + cfg.base_offset;
         let mut hash = [0u8; 32];
         rand::RngCore::fill_bytes(&mut rng, &mut hash);
-        let base = ChainState::empty(BlockHeight::from_u32(base_h), BlockHash(hash));
+        let mut prior_roots: [Vec<[u8; 32]>; 3] = Default::default();
+        let (base_h, base) = if cfg.shard_start {
+            use incrementalmerkletree::frontier::Frontier;
+            use std::num::NonZeroU8;
+            let base_h = base_h + 3000;
+            let d16 = NonZeroU8::new(16).unwrap();
+            // every pool starts non-empty (as on a real chain); pools the history uses start just
+            // below a subtree boundary
+            let mut size = |rng: &mut ChaCha20Rng, used: bool| -> u64 {
+                if used { (1u64 << 16) * rng.gen_range(1..=2) - rng.gen_range(3..60) } else { rng.gen_range(5..2000) }
+            };
+            let (sz_s, sz_o, sz_i) = (
+                size(&mut rng, cfg.pools.contains(&Pool::Sapling)),
+                size(&mut rng, cfg.pools.contains(&Pool::Orchard)),
+                if cfg.nu6_3 { size(&mut rng, cfg.pools.contains(&Pool::Ironwood)) } else { 0 },
+            );
+            let (rs, fs) = Frontier::<sapling::Node, 32>::random_with_prior_subtree_roots(&mut rng, sz_s, d16);
+            let (ro, fo) = Frontier::<orchard::tree::MerkleHashOrchard, 32>::random_with_prior_subtree_roots(&mut rng, sz_o, d16);
+            let (ri, fi) = Frontier::<orchard::tree::MerkleHashOrchard, 32>::random_with_prior_subtree_roots(&mut rng, sz_i, d16);
+            prior_roots[0] = rs.iter().map(|n| n.to_bytes()).collect();
+            prior_roots[1] = ro.iter().map(|n| n.to_bytes()).collect();
+            prior_roots[2] = ri.iter().map(|n| n.to_bytes()).collect();
+            (base_h, ChainState::new(BlockHeight::from_u32(base_h), BlockHash(hash), fs, fo, fi))
+        } else {
+            (base_h, ChainState::empty(BlockHeight::from_u32(base_h), BlockHash(hash)))
+        };
+        let _ = base_h;
         let sim_rng = vh_common::rng(rng.r#gen(), 1);
-        let sim = ChainSim::new(net, cfg.n_accounts, base, sim_rng);
+        let mut sim = ChainSim::new(net, cfg.n_accounts, base, sim_rng);
+        sim.prior_roots = prior_roots;
         let w = WalletUnderTest::new(
             &sim,
             WalletConfig {
@@ -242,6 +283,9 @@ impl Hist {
             remined: 0,
             f1_scan_failures: 0,
             aborted: None,
+            roots_given: BTreeSet::new(),
+            subtree_roots_put: 0,
+            deep_rewinds_attempted: 0,
         }
     }
 
@@ -397,6 +441,32 @@ impl Hist {
         }
     }
 
+    /// Hands the wallet the true roots of subtrees the chain has completed (as a light client
+    /// learns them from the server), at an arbitrary moment relative to scanning.
+    fn put_completed_roots(&mut self) {
+        use zcash_client_backend::data_api::{chain::CommitmentTreeRoot, WalletCommitmentTrees};
+        let todo: Vec<_> = self.sim.completed_shards.iter().filter(|s| !self.roots_given.contains(&(s.0, s.1))).cloned().collect();
+        for (pool, idx, h, root) in todo {
+            let bh = BlockHeight::from_u32(h);
+            let r = match pool {
+                Pool::Sapling => self.w.db.put_sapling_subtree_roots(idx, &[CommitmentTreeRoot::from_parts(bh, sapling::Node::from_bytes(root).unwrap())]).map_err(|e| format!("{e:?}")),
+                Pool::Orchard => self.w.db.put_orchard_subtree_roots(idx, &[CommitmentTreeRoot::from_parts(bh, orchard::tree::MerkleHashOrchard::from_bytes(&root).unwrap())]).map_err(|e| format!("{e:?}")),
+                Pool::Ironwood => self.w.db.put_ironwood_subtree_roots(idx, &[CommitmentTreeRoot::from_parts(bh, orchard::tree::MerkleHashOrchard::from_bytes(&root).unwrap())]).map_err(|e| format!("{e:?}")),
+            };
+            match r {
+                Ok(()) => {
+                    self.roots_given.insert((pool, idx));
+                    self.subtree_roots_put += 1;
+                    // the stored shard root is an annotation over [idx*2^16, (idx+1)*2^16): a later
+                    // truncation inside it meets known finding F1
+                    self.f1.on_subtree_root(pool, idx);
+                    self.ops.push(Op::PutRoots { pool: pool.name(), index: idx });
+                }
+                Err(e) => self.aborted = Some(format!("put_{}_subtree_roots({idx}) failed: {e}", pool.name())),
+            }
+        }
+    }
+
     /// Would truncating to `to` trigger F1 (given the frontiers inserted so far)?
     fn rewind_would_taint(&self, to: u32) -> bool {
         // the wallet may pick a lower checkpoint; approximate with the requested height when it
@@ -520,6 +590,13 @@ impl Hist {
                     // candidate depths; optionally prefer ones that do not trigger F1
                     let cap = if self.rng.gen_bool(0.7) { 12 } else { 99 };
                     let mut d = self.rng.gen_range(1..=maxd.min(cap));
+                    // now and then a DEEP rewind, below the oldest ordinary checkpoint: the wallet
+                    // may refuse it or reset to subtree roots; either is legal, wrong roots are not
+                    let span = tip - self.sim.base_height() - 1;
+                    if span > 130 && self.rng.gen_bool(0.15) {
+                        d = self.rng.gen_range(100..=span.min(300));
+                        self.deep_rewinds_attempted += 1;
+                    }
                     if self.cfg.avoid_f1 {
                         for _ in 0..30 {
                             if !self.rewind_would_taint(tip - d) {
@@ -544,6 +621,14 @@ impl Hist {
             } else {
                 continue;
             }
+            self.call(mons, r);
+            if self.cfg.shard_start && self.rng.gen_bool(0.3) {
+                self.put_completed_roots();
+                self.call(mons, r);
+            }
+        }
+        if self.cfg.shard_start && self.aborted.is_none() {
+            self.put_completed_roots();
             self.call(mons, r);
         }
         // finish: make the wallet aware of the tip and scan whatever is left, ascending
